@@ -23,7 +23,17 @@ func init() {
 	}}
 	properties["C17"] = propDef{run: func(c *Ctx) *PropertyRun {
 		return &PropertyRun{Level: "other", Trusted: trustedBase, Assume: commonAssumptions,
-			Rules: []*RuleResult{c.rule("R3", ruleR3), c.rule("R4", ruleR4)},
+			Rules: []*RuleResult{c.rule("R3", ruleR3), c.rule("R4", ruleR4), c.rule("R6", ruleR6)},
+			Explain: "partial"}
+	}}
+	properties["C11"] = propDef{run: func(c *Ctx) *PropertyRun {
+		return &PropertyRun{Level: "other", Trusted: trustedBase, Assume: commonAssumptions,
+			Rules: []*RuleResult{c.rule("R9", ruleR9)},
+			Explain: "partial"}
+	}}
+	properties["C12"] = propDef{run: func(c *Ctx) *PropertyRun {
+		return &PropertyRun{Level: "other", Trusted: trustedBase, Assume: commonAssumptions,
+			Rules: []*RuleResult{c.rule("R8", ruleR8), c.rule("R6", ruleR6)},
 			Explain: "partial"}
 	}}
 }
